@@ -675,6 +675,11 @@ func runHistory(p *SPlan, noUp bool, o *sim.Outcome, sigParts *[]string) []obsLi
 			o.Fail("C10.no_crash", site, i, "%s: the shim panicked (%v) [faults fired so far: %v]", tag, res.panicked, s.firedLog)
 			return lists
 		}
+		if st.Op == "close" && !wasLocked && res.err == nil && !s.closed {
+			// (also when another client changed the underlying agent meanwhile: the shim's connection is closed now)
+			o.Probe("closed_unlocked")
+			return lists
+		}
 		if st.Op == "close" && !wasLocked && !res.faulted && !s.closed {
 			// closing an unlocked shim ends the history: the connection to the underlying agent is gone
 			if res.err != nil {
